@@ -144,15 +144,21 @@ func runClosures(payload string) string {
 		return guard(func() string {
 			if isStack {
 				twin := BuildStack(v) // an equal copy of the initial content (content never changes except through marshal)
+				twinP := BuildStack(v)
+				twinP.SetReadOnly(false)
+				twinP.SetEqualityPolicy(eqPolicy(2)) // Qp: the argument carries a (rejecting) closure of its own: it is the receiver's that counts
 				u, uerr := s.Unmarshal()
 				// Qs: compared with itself - an installed equality closure is consulted all the same
-				return fmt.Sprintf("V%s S%s Qc%s Qd%s Qs%s U%s{%s} R%s L%d", errTokC(s.Valid()), hx(s.String()), errTok(s.IsEqual(twin)), errTok(s.IsEqual(stackage.Basic().Push(99))),
-					errTok(s.IsEqual(s)), errTokC(uerr), Describe(any(u)), errClass(s.Err()), s.Len())
+				return fmt.Sprintf("V%s S%s Qc%s Qd%s Qs%s Qp%s U%s{%s} R%s L%d", errTokC(s.Valid()), hx(s.String()), errTok(s.IsEqual(twin)), errTok(s.IsEqual(stackage.Basic().Push(99))),
+					errTok(s.IsEqual(s)), errTok(s.IsEqual(twinP)), errTokC(uerr), Describe(any(u)), errClass(s.Err()), s.Len())
 			}
 			twin := BuildCond(v)
+			twinP := BuildCond(v)
+			twinP.SetReadOnly(false)
+			twinP.SetEqualityPolicy(eqPolicy(2))
 			u, uerr := c.Unmarshal()
-			return fmt.Sprintf("V%s S%s Qc%s Qd%s Qs%s U%s{%s} R%s", errTokC(c.Valid()), hx(c.String()), errTok(c.IsEqual(twin)), errTok(c.IsEqual(stackage.Cond("zz", stackage.Ne, 5))),
-				errTok(c.IsEqual(c)), errTokC(uerr), Describe(any(u)), errClass(c.Err()))
+			return fmt.Sprintf("V%s S%s Qc%s Qd%s Qs%s Qp%s U%s{%s} R%s", errTokC(c.Valid()), hx(c.String()), errTok(c.IsEqual(twin)), errTok(c.IsEqual(stackage.Cond("zz", stackage.Ne, 5))),
+				errTok(c.IsEqual(c)), errTok(c.IsEqual(twinP)), errTokC(uerr), Describe(any(u)), errClass(c.Err()))
 		})
 	}
 	cl := func(t reflect.Type, tok string) []reflect.Value {
